@@ -2,29 +2,28 @@
 pub mod rt;
 pub mod support;
 use std::panic::AssertUnwindSafe;
-#[path = "gen/c26_s0.rs"] mod c26_s0;
-#[path = "gen/c26_s1.rs"] mod c26_s1;
-#[path = "gen/c26_s2.rs"] mod c26_s2;
-#[path = "gen/c26_s3.rs"] mod c26_s3;
-#[path = "gen/c26_s4.rs"] mod c26_s4;
+#[path = "gen/c06mact.rs"] mod c06mact;
+#[path = "gen/c06maca.rs"] mod c06maca;
 
 fn run_seq(m: &str, p: &str, input: &str) -> String {
     match (m, p) {
-        ("c26_s0", "S") => rt::guarded(AssertUnwindSafe(|| rt::show(c26_s0::SParser::new().parse(input)))),
-        ("c26_s1", "S") => rt::guarded(AssertUnwindSafe(|| rt::show(c26_s1::SParser::new().parse(input)))),
-        ("c26_s2", "S") => rt::guarded(AssertUnwindSafe(|| rt::show(c26_s2::SParser::new().parse(input)))),
-        ("c26_s3", "S") => rt::guarded(AssertUnwindSafe(|| rt::show(c26_s3::SParser::new().parse(input)))),
-        ("c26_s4", "S") => rt::guarded(AssertUnwindSafe(|| rt::show(c26_s4::SParser::new().parse(input)))),
+        ("c06mact", "S") => rt::guarded(AssertUnwindSafe(|| rt::show(c06mact::SParser::new().parse(input)))),
+        ("c06mact", "P") => rt::guarded(AssertUnwindSafe(|| rt::show(c06mact::PParser::new().parse(input)))),
+        ("c06mact", "O") => rt::guarded(AssertUnwindSafe(|| rt::show(c06mact::OParser::new().parse(input)))),
+        ("c06maca", "S") => rt::guarded(AssertUnwindSafe(|| rt::show(c06maca::SParser::new().parse(input)))),
+        ("c06maca", "P") => rt::guarded(AssertUnwindSafe(|| rt::show(c06maca::PParser::new().parse(input)))),
+        ("c06maca", "O") => rt::guarded(AssertUnwindSafe(|| rt::show(c06maca::OParser::new().parse(input)))),
         _ => "NOPARSER".to_string(),
     }
 }
 fn run_mt(m: &str, p: &str, threads: usize, rounds: usize, inputs: &[String]) -> String {
     match (m, p) {
-        ("c26_s0", "S") => { let p = c26_s0::SParser::new(); rt::shared(&p, inputs, threads, rounds, |p, s| rt::guarded(AssertUnwindSafe(|| rt::show(p.parse(s))))) }
-        ("c26_s1", "S") => { let p = c26_s1::SParser::new(); rt::shared(&p, inputs, threads, rounds, |p, s| rt::guarded(AssertUnwindSafe(|| rt::show(p.parse(s))))) }
-        ("c26_s2", "S") => { let p = c26_s2::SParser::new(); rt::shared(&p, inputs, threads, rounds, |p, s| rt::guarded(AssertUnwindSafe(|| rt::show(p.parse(s))))) }
-        ("c26_s3", "S") => { let p = c26_s3::SParser::new(); rt::shared(&p, inputs, threads, rounds, |p, s| rt::guarded(AssertUnwindSafe(|| rt::show(p.parse(s))))) }
-        ("c26_s4", "S") => { let p = c26_s4::SParser::new(); rt::shared(&p, inputs, threads, rounds, |p, s| rt::guarded(AssertUnwindSafe(|| rt::show(p.parse(s))))) }
+        ("c06mact", "S") => { let p = c06mact::SParser::new(); rt::shared(&p, inputs, threads, rounds, |p, s| rt::guarded(AssertUnwindSafe(|| rt::show(p.parse(s))))) }
+        ("c06mact", "P") => { let p = c06mact::PParser::new(); rt::shared(&p, inputs, threads, rounds, |p, s| rt::guarded(AssertUnwindSafe(|| rt::show(p.parse(s))))) }
+        ("c06mact", "O") => { let p = c06mact::OParser::new(); rt::shared(&p, inputs, threads, rounds, |p, s| rt::guarded(AssertUnwindSafe(|| rt::show(p.parse(s))))) }
+        ("c06maca", "S") => { let p = c06maca::SParser::new(); rt::shared(&p, inputs, threads, rounds, |p, s| rt::guarded(AssertUnwindSafe(|| rt::show(p.parse(s))))) }
+        ("c06maca", "P") => { let p = c06maca::PParser::new(); rt::shared(&p, inputs, threads, rounds, |p, s| rt::guarded(AssertUnwindSafe(|| rt::show(p.parse(s))))) }
+        ("c06maca", "O") => { let p = c06maca::OParser::new(); rt::shared(&p, inputs, threads, rounds, |p, s| rt::guarded(AssertUnwindSafe(|| rt::show(p.parse(s))))) }
         _ => "NOPARSER".to_string(),
     }
 }
